@@ -7,7 +7,7 @@ cd "$here" || exit 3
 echo "| seed | caught by (quick tier, all 20 checks run against the change) |"; echo "|---|---|"
 for d in seeded/C??$suf/; do
     sid="$(basename "$d")"
-    grep -q '"status": "neutralised"' "$d/meta.json" && { echo "| $sid | neutralised |"; continue; }
+    grep -q '"status": "neutralised"\|"status": "out_of_domain"' "$d/meta.json" && { echo "| $sid | neutralised / out of domain |"; continue; }
     scratch="$(mktemp -d /tmp/lasio-x-XXXXXX)"
     rsync -a --exclude .git --exclude __pycache__ --exclude .pytest_cache /repo/ "$scratch/"
     if ! (cd "$scratch" && patch -p1 -s --no-backup-if-mismatch < "$here/$d/patch.diff"); then echo "| $sid | PATCH-FAILED |"; rm -rf "$scratch"; continue; fi
